@@ -28,8 +28,8 @@ def run(ck):
               "parameters, header case and spacing variants, boundaries of 1..70 bchars) encoded by an independent encoder and decoded under every 1-cut and 2-cut of short bodies, fixed chunk sizes 1..64 KiB and random "
               "k-cuts around delimiter occurrences, with in-memory limits forcing spills to temporary files (directory empty afterwards); truncated/extended/unclosed bodies must be refused and every mutated body must "
               "give the same outcome under any chunking; end to end through http/scgi/fastcgi (plain, multipart-filter and raw-filter applications, request().setbuf 1..64 KiB, read schedules): parts delivered exactly, bodies over "
-              "the content/multipart/field limits answered 413, bad/unclosed boundaries and bodies longer than declared 400, bodies shorter than declared never delivered, filters see every byte once, on_error at most once, "
+              "the content/multipart/field limits answered 413, bad/unclosed boundaries and bodies longer than declared 400, bodies shorter than declared never delivered, filters see every byte once (also filters that read each part's data stream to its end, or take themselves off the request at the n-th callback), on_error at most once, "
               "uploads directory empty after every request. non-trivial = distinct bodies",
               "partitions", "bodies", min_evals=20000,
               required_nonzero=("bodies_with_all_cuts", "partitions_with_spill", "malformed_refused", "malformed_bodies",
-                                "uploads_compared", "refusals_checked", "incomplete_checked", "raw_filter_checked", "multipart_filter_checked", "on_error_notifications", "filter_aborts_checked"))
+                                "uploads_compared", "refusals_checked", "incomplete_checked", "raw_filter_checked", "multipart_filter_checked", "on_error_notifications", "filter_aborts_checked", "uploads_with_an_inspecting_filter", "uploads_with_a_filter_released_half_way"))
